@@ -100,6 +100,16 @@ func sprintfShape(p *load.Program, v ssa.Value) ([]keyTok, error) {
 				}
 				return append(pre, keyTok{Verb: "%s", Type: "vaa.Address", Fixed: 64, Alpha: "[0-9a-f]", Src: facts.Term(sc.Call.Args[0])}), nil
 			}
+			// hex of a 32-byte array (what Address.String is)
+			if sc, isCall := resolveSpill(a).(*ssa.Call); isCall && facts.CalleeName(&sc.Call) == "encoding/hex.EncodeToString" {
+				if src, isSl := sc.Call.Args[0].(*ssa.Slice); isSl && src.Low == nil && src.High == nil {
+					if pt, isP := src.X.Type().Underlying().(*types.Pointer); isP {
+						if at, isA := pt.Elem().Underlying().(*types.Array); isA && at.Len() == 32 {
+							return append(pre, keyTok{Verb: "%s", Type: "vaa.Address", Fixed: 64, Alpha: "[0-9a-f]", Src: strings.TrimSuffix(facts.Term(src.X), "[:]")}), nil
+						}
+					}
+				}
+			}
 			return nil, fmt.Errorf("append of %s is outside the idiom table", facts.Term(a))
 		}
 		// another key builder of the repository with a single return
@@ -120,6 +130,17 @@ func sprintfShape(p *load.Program, v ssa.Value) ([]keyTok, error) {
 		if k, isK := constInt(ms.Len); isK && k == 0 {
 			return nil, nil
 		}
+	}
+	// … which compiles to a fresh array sliced [:0] when n is a constant; or a nil slice
+	if sl, isSl := v.(*ssa.Slice); isSl {
+		if al, isAl := sl.X.(*ssa.Alloc); isAl && al.Comment == "makeslice" && sl.Low == nil && sl.High != nil {
+			if k, isK := constInt(sl.High); isK && k == 0 {
+				return nil, nil
+			}
+		}
+	}
+	if isNilConst(v) {
+		return nil, nil
 	}
 	if ph, isPhi := v.(*ssa.Phi); isPhi {
 		_ = ph
